@@ -23,7 +23,7 @@ def disk(Scratch):
 def determinism(Scratch):
     """Every (profile, seed) is executed in many processes at GOMAXPROCS 1, 4 and 16 (and once under -race);
     all event-log digests of one pair must be identical."""
-    profiles = ["fresh", "valid", "vary", "fidelity", "store", "inval", "writeback", "hits", "faults", "swr", "swrvary", "swrreuse", "swrrace", "swrflood", "varyflip", "wbfault", "oicstep", "conc", "oic", "sie", "placement", "crashy", "tamper", "map", "atomic", "crypt", "recover"]
+    profiles = ["fresh", "valid", "vary", "fidelity", "store", "inval", "writeback", "hits", "faults", "swr", "swrvary", "swrreuse", "swrrace", "swrflood", "varyflip", "wbfault", "oicstep", "invalswr", "conc", "oic", "sie", "placement", "crashy", "tamper", "map", "atomic", "crypt", "recover"]
     n_seeds = int(os.environ.get("VSELF_SEEDS", "40"))
     procs = int(os.environ.get("VSELF_PROCS", "30"))
     sc = Scratch()
